@@ -71,9 +71,23 @@ def dsv(name, vals):
     return DS(name, [("Id_1", "Integer", ID), ("Me_1", "Number", ME), ("VAt_1", "String", VAT)], rows)
 
 
+def dsmixed():
+    """one dataset whose time-typed columns mix the documented spellings of their type (order of the rows must not matter)"""
+    rows = [
+        {"Id_1": 1, "Me_D": "2020-01-02", "Me_P": "2020Q1", "Me_N": 1.0},
+        {"Id_1": 2, "Me_D": "2020-01-02 10:30:00", "Me_P": "2020-Q2", "Me_N": 2.5},
+        {"Id_1": 3, "Me_D": "2020-01-03T00:00:00", "Me_P": "2020-M03", "Me_N": None},
+        {"Id_1": 4, "Me_D": None, "Me_P": "2020M4", "Me_N": -1.0},
+    ]
+    return DS("DS_M", [("Id_1", "Integer", ID), ("Me_D", "Date", ME), ("Me_P", "Time_Period", ME), ("Me_N", "Number", ME)], rows)
+
+
 def programs():
     """-> list of (name, script, [datasets], tags)"""
     P = []
+    P.append(("mixed-spellings-copy", "DS_r <- DS_M;", [dsmixed()], {"load"}))
+    P.append(("mixed-spellings-date-filter", "DS_r <- DS_M[filter Me_D > cast(\"2020-01-02\", date)][keep Me_D];", [dsmixed()], {"load"}))
+    P.append(("mixed-spellings-period-calc", "DS_r <- DS_M[calc Me_Y := getyear(Me_P), Me_I := period_indicator(Me_P)];", [dsmixed()], {"load"}))
     one, two, three = [ds1()], [ds1(), ds2()], [ds1(), ds2(), ds3()]
     for op in ("sum", "avg", "count", "min", "max", "median", "stddev_pop", "stddev_samp", "var_pop", "var_samp"):
         P.append(("aggr-%s-group-by" % op, "DS_r <- %s(DS_1 group by Id_2);" % op, one, {"aggregate"}))
